@@ -189,6 +189,10 @@ class WMSSource(MapLayer):
         if self.coverage != other.coverage:
             return False
 
+        if self.coverage and bool(self.coverage.clip) != bool(other.coverage.clip):
+            # coverages compare equal regardless of clip, the combined source has one coverage
+            return False
+
         if other.image_opts.transparent is False:
             # an opaque source replaces everything below,
             # it can not be rendered on top of it by the server
